@@ -101,7 +101,7 @@ func unitSize(v any) (int, int64, bool) {
 // Stats are the counters a judged tree contributes.
 type Stats struct {
 	Values, Synthetic, RawLeaves, Unaligned, Nested, Renders int64
-	Unmatched                                                 int64 // dsl values without a reference node (tree shape is C03's subject)
+	Unmatched                                                int64 // dsl values without a reference node (tree shape is C03's subject)
 }
 
 // Exp is what the harness expects of one value: bits [S,S+N) of Buf.
